@@ -19,10 +19,14 @@ cd /repo && git checkout -- test_reports
 BASE=$(git merge-base main fix-$P)
 N=$(git rev-list --count $BASE..fix-$P)
 echo "cherry-picking $N fix commits of $P"
-for c in $(git rev-list --reverse $BASE..fix-$P); do
-  if git cherry-pick $c >/dev/null 2>&1; then :; else
-    if git diff --quiet && git diff --cached --quiet; then echo "  (skipping redundant $(git log --oneline -1 $c))"; git cherry-pick --skip;
-    else echo "CHERRY-PICK CONFLICT in /repo at $(git log --oneline -1 $c)"; git status --short | grep -v '^??' | head; exit 1; fi
+touch /verif/tools/picked.txt
+for c in $(git rev-list --reverse --no-merges $BASE..fix-$P); do
+  if grep -q "^$c" /verif/tools/picked.txt; then continue; fi
+  subj=$(git log -1 --format=%s $c)
+  if git log --format=%s main | grep -qxF "$subj"; then echo "  (already on main: $subj)" | cut -c1-120; echo "$c dup $P" >> /verif/tools/picked.txt; continue; fi
+  if git cherry-pick $c >/dev/null 2>&1; then echo "$c picked $P" >> /verif/tools/picked.txt; else
+    if git diff --quiet && git diff --cached --quiet; then echo "  (skipping redundant $(git log --oneline -1 $c))" | cut -c1-120; git cherry-pick --skip; echo "$c redundant $P" >> /verif/tools/picked.txt;
+    else echo "CHERRY-PICK CONFLICT in /repo at $(git log --oneline -1 $c)"; git status --short | grep -v '^??' | head; git cherry-pick --abort; exit 1; fi
   fi
 done
 git log --oneline -$((N+1)) | cat
